@@ -549,6 +549,13 @@ def build(repo, template_path, canary=False) -> SpliceResult:
             rules['X6-fields'] = rules.get('X6-fields', 0) + 1
             i += 1
             continue
+        if d == 'include':
+            inc = os.path.join(os.path.dirname(os.path.dirname(os.path.abspath(__file__))), rest.strip())
+            for l in open(inc).read().split('\n'):
+                out.append(l)
+                lmap.append(None)
+            i += 1
+            continue
         if d == 'assert_text':
             # environment constant checked syntactically: the real item's text (X3 applied, whitespace-normalised)
             # must equal the text after `text=`; otherwise the unit is undecided (anchor-lost), never an alarm
